@@ -44,7 +44,7 @@ func init() {
 		Run:          Run,
 		MaxSteps:     200000,
 		YieldFiles:   []string{"cred/manager.go", "ss2022/credstore.go", "service/reload_unix.go"},
-		QuickRuns:    6000,
+		QuickRuns:    10000,
 		ThoroughSecs: 600,
 		Rule: "one run = one flavour (quiet | duplicate-key | save-race | concurrent-disjoint | concurrent-same-user | concurrent-reload | anything | empty-store-file), key size, " +
 			"store configuration (both/tcp/udp), 3-4 user names, 3-8 keys, an initial store document and 1-4 API clients that draw up to 32 operations " +
@@ -392,6 +392,10 @@ func (md *model) apply(p mstate, in input, out output) []mstate {
 // --- run ------------------------------------------------------------------------------------------
 
 type run struct {
+	lastAddKey int // key index of the most recent add of any client (flavour "anything")
+	burstKey   int // >= 0: every client's first operation adds this key (flavour "anything")
+	burstDone  map[int]bool
+
 	s    *simrt.Sim
 	r    *rig.Rig
 	in   *rig.Instance
@@ -442,7 +446,7 @@ func Run(s *simrt.Sim) {
 		runSignal(s)
 		return
 	}
-	c := &run{s: s, kinds: map[string]bool{}, docKinds: map[string]bool{}, keyOwnerSeen: map[int]string{}}
+	c := &run{s: s, kinds: map[string]bool{}, docKinds: map[string]bool{}, keyOwnerSeen: map[int]string{}, lastAddKey: -1, burstKey: -1, burstDone: map[int]bool{}}
 	c.fl = s.Choose(nFlavours)
 	c.flN = flName[c.fl]
 	if f := envFlavour(); f >= 0 && f != c.fl {
@@ -453,11 +457,10 @@ func Run(s *simrt.Sim) {
 	s.PSwitch = util.Pick(s, []int{8, 64, 160, 255})
 	s.YieldP = util.Pick(s, []int{0, 32, 128, 255})
 	s.YieldMax = util.Pick(s, []int{2, 8, 24})
-	dupAllowed := c.fl == flDup || c.fl == flAnything
-	if dupAllowed {
-		// A saved document in which two of three or more users share a key is rejected by the
-		// loader after a number of loop iterations that depends on Go's map iteration order;
-		// without statement-level pre-emption that number does not influence the schedule.
+	if c.fl == flDup {
+		// (historic: before map iteration order became a function of the seed, the number of loop
+		// iterations the loader needs to reject a document with a shared key influenced the
+		// schedule under statement-level pre-emption; the sequential flavour keeps it switched off)
 		s.YieldP = 0
 	}
 	c.seqMode = c.fl == flQuiet || c.fl == flDup || c.fl == flSaveRace || c.fl == flEmptyFile
@@ -482,6 +485,13 @@ func Run(s *simrt.Sim) {
 		c.keyIdx[string(k)] = i
 	}
 	c.opsLeft = util.Pick(s, []int{4, 8, 14, 22, 32})
+	if c.fl == flAnything && s.GenChance(200) {
+		c.burstKey = s.Choose(nKeys)
+		if s.GenChance(128) {
+			// few operations after the burst: what it left behind is still there at quiescence
+			c.opsLeft = c.nClients + s.Choose(4)
+		}
+	}
 	emptyInitial := c.fl == flEmptyFile // the server is started on a zero-byte store file
 
 	c.r = rig.New(s, keyLen, stores)
@@ -719,6 +729,13 @@ func (c *run) genOp(cl int) (input, bool) {
 		menu = append(menu, "reload", "reload", "edit", "edit")
 	}
 	mine := c.namesOf(cl)
+	if c.burstKey >= 0 && !c.burstDone[cl] && len(mine) > 0 {
+		// every client opens with an add of one and the same key under a name of its own, all at
+		// once: whatever the interleaving, at most one of them may be granted
+		c.burstDone[cl] = true
+		s.Probe("c08.racing-duplicate-add")
+		return input{kind: opAdd, user: mine[cl%len(mine)], key: c.burstKey}, true
+	}
 	switch util.Pick(s, menu) {
 	case "add", "update":
 		kind := opAdd
@@ -809,6 +826,20 @@ func (c *run) pickKey(n string, kind opKind) (int, bool) {
 				return owned[s.Choose(len(owned))], true
 			}
 		}
+	}
+	if c.fl == flAnything && kind == opAdd {
+		// racing duplicates: another client's most recent add used this key, possibly a moment ago
+		if c.lastAddKey >= 0 && s.GenChance(110) {
+			for _, k := range cand {
+				if k == c.lastAddKey {
+					s.Probe("c08.racing-duplicate-add")
+					return k, true
+				}
+			}
+		}
+		k := cand[s.Choose(len(cand))]
+		c.lastAddKey = k
+		return k, true
 	}
 	return cand[s.Choose(len(cand))], true
 }
